@@ -290,7 +290,9 @@ pub fn run_plan(plan: Plan, tier: Tier) -> Outcome
         "evaluations": total.executions,
         "distinct_nontrivial": total.nontrivial_outcomes.len(),
         "distinct_outcomes": total.outcomes.len(),
-        "rule": plan.rule,
+        "rule": format!("{}; series explored in this run (each a universe of its own, see DESIGN.md 11.2): {}", plan.rule,
+            per_item.iter().filter_map(|x| x["series"].as_str().map(|s| s.to_string())).collect::<std::collections::BTreeSet<_>>()
+                .into_iter().collect::<Vec<_>>().join(", ")),
         "samples": samples,
         "exhaustive": all_exhaustive,
         "bounds_completed": completed,
